@@ -40,6 +40,8 @@ func runC02(c *Ctx) {
 	// X8: normal termination only after every input was observed closed and empty - otherwise
 	// items written before the close are never delivered (= C07 E0-E3)
 	r.Doc("X8", "(= C07 E1-E3) the scheduler ends normally only after all inputs were observed drained; drained is set only on the closed edge; the all-drained helper visits every input", 10)
+	r.Doc("X9", "v1 Simple: the supervising goroutine waits only for stop, cancel, the graceful request and the inner discipline's end (its return stops everything)", 7)
+	checkSupervisorWaits(c, c.V1, "X9")
 	for _, p := range []*Prog{c.V1, c.V2} {
 		sr, err := resolveSchedRoles(p)
 		if err != nil {
@@ -412,6 +414,23 @@ func c02registration(c *Ctx, p *Prog) {
 				}
 				ok2, why := paired(fn, mu.Key, chs.V, 0)
 				r.Check(ok2, "X1", key, p.InstrPos(mu), why, "channel registered under a key it was not supplied with: "+why)
+				if ok2 && strings.HasPrefix(why, "range pair") {
+					// every configured input is registered: inside the range over Opts.Inputs the store is
+					// unconditional (an input left out of the table is never required to be drained, and is
+					// never looked at by the all-drained test)
+					uncond := true
+					for _, e := range InstrDomEdges(mu) {
+						iff := e.From.Instrs[len(e.From.Instrs)-1].(*ssa.If)
+						base, _ := condOf(iff.Cond)
+						if ex, isEx := base.(*ssa.Extract); isEx {
+							if _, isNext := ex.Tuple.(*ssa.Next); isNext && ex.Index == 0 {
+								continue
+							}
+						}
+						uncond = false
+					}
+					r.Check(uncond, "X1", key+"#every", p.InstrPos(mu), "every configured input is registered", "the registration of a configured input is conditional: an input that is left out of the table is not covered by the all-inputs-drained test, so the discipline can terminate normally while that input is still open")
+				}
 			}
 		}
 	}
